@@ -89,6 +89,49 @@ Qed.
 (* ------------------------------------------------------------------------------------------ *)
 (* generic frames                                                                             *)
 
+(* the common prelude of the append_entries branch, named                                     *)
+
+Definition ae_pre (e : env) (from : nid) (t c : N) (s : S) : S :=
+  let s := upd (fun n => n <| deadline := (tnow s + gen_timeout e)%Z |>) s in
+  let s := if opt_eqb (leader (nd s)) (Some from) then s else on_leader_changed s in
+  let s := upd (fun n => n <| leader := Some from |>) s in
+  let s := if term (nd s) <? t then upd (fun n => n <| term := t |> <| voted := None |>) s else s in
+  let s := set_role FOLLOWER s in
+  upd (fun n => n <| leader_commit := Some c |>) s.
+
+Definition ae_body_of (e : env) (from : nid) (m : msg) (c : N) (s : S) : S :=
+  match m with
+  | AE _ _ prev es => ae_regular e from c prev es s
+  | AEPiece _ _ prev lab off len en =>
+    if lab =? 1 then
+      send_next_idx from None false false (upd (fun n => n <| recv_t := [(en, off, len)] |>) s)
+    else
+      match recv_t (nd s) with
+      | [] => raise EXC_TYPE s
+      | _ =>
+        let s := upd (fun n => n <| recv_t := recv_t n ++ [(en, off, len)] |>) s in
+        if lab =? 2 then send_next_idx from None false false s
+        else
+          match assemble_entry (recv_t (nd s)) with
+          | None => raise EXC_DECODE s
+          | Some en' => ae_regular e from c prev [en'] (upd (fun n => n <| recv_t := [] |>) s)
+          end
+      end
+  | AESnap _ _ p =>
+    let (s, done) := set_transmission p s in
+    if done && load_dump_ok s then
+      let s := send_next_idx from None false true (load_dump e true s) in
+      ae_commit c (Some (last_idx (log (nd s)))) s
+    else ae_commit c None s
+  | _ => s
+  end.
+
+Lemma on_append_entries_eq e from m t c s :
+  on_append_entries e from m t c s =
+  if t <? term (nd s) then s else ae_body_of e from m c (ae_pre e from t c s).
+Proof. reflexivity. Qed.
+
+
 Ltac dmatch :=
   match goal with
   | |- context [match ?x with _ => _ end] => destruct x eqn:?
@@ -388,41 +431,69 @@ Proof.
   destruct (dyn (cf e)); rewrite ?fr_apply_membership; frw; exact E.
 Qed.
 
+Lemma fr_ae_body_of e from m c s : π (nd (ae_body_of e from m c s)) = π (nd s).
+Proof.
+  unfold ae_body_of. destruct m; try reflexivity.
+  - apply fr_ae_regular.
+  - destruct (lab =? 1); [frw; reflexivity|].
+    destruct (recv_t _); [reflexivity|].
+    destruct (lab =? 2); [frw; reflexivity|].
+    destruct (assemble_entry _); [|frw; reflexivity].
+    rewrite fr_ae_regular. frw. reflexivity.
+  - pose proof (fr_set_transmission p s) as G; destruct (set_transmission p s) as [s2 dn].
+    cbn [fst] in G. destruct (dn && _); rewrite fr_ae_commit; frw; rewrite ?fr_load_dump, G; reflexivity.
+Qed.
+
+Lemma fr_ae_pre0 e from t c s : π (nd (ae_pre e from t c s)) = π (nd s).
+Proof.
+  unfold ae_pre. cbv zeta. rewrite nd_upd, H_leader_commit, fr_set_role.
+  match goal with |- context [if ?b then _ else _] => destruct b end;
+    rewrite ?nd_upd; cbv beta; rewrite ?H_voted, ?H_term, ?H_leader;
+    (match goal with |- context [if ?b then _ else _] => destruct b end);
+    rewrite ?fr_on_leader_changed, ?nd_upd, ?H_deadline; reflexivity.
+Qed.
+
 Lemma fr_on_append_entries e from m t c s : π (nd (on_append_entries e from m t c s)) = π (nd s).
 Proof.
-  unfold on_append_entries. destruct (t <? term (nd s)); [reflexivity|].
-  match goal with |- context [upd (fun n => n <| leader_commit := Some c |>) ?s0] =>
-    set (s1 := upd (fun n => n <| leader_commit := Some c |>) s0) end.
-  assert (E : π (nd s1) = π (nd s)).
-  { subst s1. frw. rewrite fr_set_role.
-    destruct (term _ <? t); frw; destruct (opt_eqb _ _); rewrite ?fr_on_leader_changed; fr. }
-  clearbody s1. destruct m; try exact E.
-  - rewrite fr_ae_regular. exact E.
-  - destruct (lab =? 1); [frw; exact E|].
-    destruct (recv_t _); [exact E|].
-    destruct (lab =? 2); [frw; exact E|].
-    destruct (assemble_entry _); [|frw; exact E].
-    rewrite fr_ae_regular. frw. exact E.
-  - match goal with |- context [set_transmission p ?s1] =>
-      pose proof (fr_set_transmission p s1) as G; destruct (set_transmission p s1) as [s2 dn] end.
-    cbn [fst] in G. destruct (dn && _); rewrite fr_ae_commit; frw; rewrite ?fr_load_dump, G; exact E.
+  rewrite on_append_entries_eq. destruct (t <? term (nd s)); [reflexivity|].
+  rewrite fr_ae_body_of. apply fr_ae_pre0.
 Qed.
+
+Lemma fr_msg_request_vote e from t lli llt n :
+  π (nd (on_message e from (RequestVote t lli llt) n)) = π n.
+Proof.
+  unfold on_message. cbn [nd start_S]. destruct (self n); [|reflexivity].
+  match goal with |- context [role (nd ?s0)] => set (s1 := s0) end.
+  assert (E : π (nd s1) = π n).
+  { subst s1. destruct (_ <? _); frw; rewrite ?fr_set_role; fr. }
+  clearbody s1. fr; exact E.
+Qed.
+
+Lemma fr_msg_response_vote e from t n : π (nd (on_message e from (ResponseVote t) n)) = π n.
+Proof. unfold on_message. fr; rewrite fr_become_leader; fr. Qed.
+
+Lemma fr_msg_apply_cmd e from c req n : π (nd (on_message e from (ApplyCmd c req) n)) = π n.
+Proof. unfold on_message. apply fr_submit. Qed.
+
+Lemma fr_msg_apply_resp e from req okr a b n :
+  π (nd (on_message e from (ApplyResp req okr a b) n)) = π n.
+Proof. unfold on_message. fr. Qed.
+
+Lemma fr_msg_next_idx e from t nx r su n :
+  π (nd (on_message e from (NextIdx t nx r su) n)) = π n.
+Proof. unfold on_message. fr. Qed.
 
 Lemma fr_on_message e from m n : π (nd (on_message e from m n)) = π n.
 Proof.
-  unfold on_message. destruct m.
-  - cbn [nd start_S]. destruct (self n); [|reflexivity].
-    match goal with |- context [role (nd ?s0)] => set (s1 := s0) end.
-    assert (E : π (nd s1) = π n).
-    { subst s1. destruct (_ <? _); frw; rewrite ?fr_set_role; fr. }
-    clearbody s1. fr; exact E.
-  - fr; rewrite fr_become_leader; fr.
+  destruct m.
+  - apply fr_msg_request_vote.
+  - apply fr_msg_response_vote.
   - apply fr_on_append_entries.
   - apply fr_on_append_entries.
   - apply fr_on_append_entries.
-  - apply fr_submit.
-  - fr.
-  - fr.
+  - apply fr_msg_apply_cmd.
+  - apply fr_msg_apply_resp.
+  - apply fr_msg_next_idx.
 Qed.
 
 Lemma fr_on_connected x n : π (on_connected x n) = π n.
@@ -602,4 +673,26 @@ Proof.
     destruct (aget n0 (nodes g)) as [y|]; [destruct (disk_of c y)|]; cbn; eauto.
   - inversion Hs; subst; clear Hs. unfold put_node. cbn.
     rewrite aget_aset, N.eqb_sym, Hr. eauto.
+Qed.
+
+(* ------------------------------------------------------------------------------------------ *)
+Notation fr_ae_pre := fr_ae_pre0.
+
+Lemma role_ae_pre e from t c s : role (nd (ae_pre e from t c s)) = FOLLOWER.
+Proof.
+  unfold ae_pre. cbv zeta. rewrite nd_upd. cbn [role set].
+  unfold set_role. destruct (_ =? _); reflexivity.
+Qed.
+
+Lemma term_ae_pre e from t c s :
+  term (nd s) <= t -> term (nd (ae_pre e from t c s)) = t.
+Proof.
+  intros Hle. unfold ae_pre. cbv zeta. rewrite nd_upd.
+  change (term (?n <| leader_commit := Some c |>)) with (term n).
+  rewrite (fr_set_role term) by reflexivity.
+  match goal with |- context [if ?b then _ else _] => destruct b eqn:E end.
+  - reflexivity.
+  - rewrite nd_upd in *. cbn in E. cbn.
+    destruct (opt_eqb _ _); rewrite ?(fr_on_leader_changed term) in * by reflexivity;
+      cbn in *; apply N.ltb_ge in E; lia.
 Qed.
